@@ -235,7 +235,12 @@ func (s *Solver) Check(pc []*Term, extra *Term, timeoutMs int, wantModel []*Term
 		s.send(fmt.Sprintf("(assert %s)", extra.ref()))
 	}
 	s.send("(check-sat)")
+	// Watchdog: a solver that ignores its time limit is killed; the query is
+	// then inconclusive.
+	proc := s.cmd.Process
+	wd := time.AfterFunc(time.Duration(timeoutMs)*time.Millisecond+3*time.Second, func() { proc.Kill() })
 	ans, err := s.readLine()
+	wd.Stop()
 	res := Unknown
 	switch {
 	case err != nil:
